@@ -50,12 +50,17 @@ package common
 //@   modifies nothing
 //@   ensures v.x == val(x) && v.y == val(y)
 
+//@ -- MulDiv(a, b, c) = a * b / c as a function SYMBOL (definitional axiom): lets clients (C25: kernel Share) relate the result of Product
+//@ -- to their own specification by congruence instead of by non-linear arithmetic
+//@ uninterp MulDiv(a mathint, b mathint, c mathint) mathint
+//@ axiom @C25,C33 forall a, b, c mathint :: {MulDiv(a, b, c)} MulDiv(a, b, c) == a * b / c
 //@ func (r RationalNumber) Product
 //@   property C33
 //@   requires r.y > 0
 //@   panics when val(x) < 0
 //@   modifies nothing
 //@   ensures val(v) == (val(x) * r.x) / r.y
+//@   ensures [muldiv] val(v) == MulDiv(val(x), r.x, r.y)
 
 //@ func (r RationalNumber) Cmp
 //@   property C33
